@@ -859,6 +859,7 @@ func (x *Unit) runDefers(s *State, fr *frame) *State {
 		sub := &frame{fnType: fr.fnType, parent: fr, loopBase: fr.loopBase, loopN: fr.loopN, deferLo: len(run.defers), results: fr.results}
 		savedFr := x.fr
 		x.fr = sub
+		x.inDefer++
 		if d.fnLit != nil {
 			x.inlineLit(run, d.fnLit, x, d.args, d.call)
 		} else {
@@ -872,6 +873,7 @@ func (x *Unit) runDefers(s *State, fr *frame) *State {
 			}
 			x.invoke(run, pc, 0)
 		}
+		x.inDefer--
 		x.fr = savedFr
 		if len(sub.panics) > 0 {
 			fr.panics = append(fr.panics, sub.panics...)
@@ -956,7 +958,7 @@ func (x *Unit) applyContract(st *State, b *Block, pc *preparedCall, recvName str
 			p.panicking = True
 			x.fr.panics = append(x.fr.panics, p)
 		}
-		x.assume(st, Not(cond))
+		// the call may also return normally (may_panic is a possibility, not a certainty)
 	}
 	if !b.Flags["pure"] {
 		x.envStep(st)
@@ -1047,8 +1049,16 @@ func (x *Unit) applyContract(st *State, b *Block, pc *preparedCall, recvName str
 		}
 		st.ghost[k] = v
 	}
+	nens := 0
 	for _, cl := range b.ClausesOf("ensures") {
 		x.assume(st, x.specEval(st, cl.Expr, c).T)
+		nens++
+	}
+	if nens > 0 && x.dry == 0 && x.inlineDepth == 0 && x.inDefer == 0 {
+		// the assumed postcondition must not make the continuation unreachable
+		o := x.oblige(st, "canary", "returns:"+b.Key, False, pc.call)
+		o.WantSat = true
+		o.Kind = "canary"
 	}
 	return results
 }
